@@ -27,7 +27,7 @@ def main(argv):
         try:
             shutil.copytree("/repo/audiolazy", os.path.join(tmp, "audiolazy"),
                             ignore=shutil.ignore_patterns("__pycache__"))
-            p = subprocess.run(["patch", "-p1", "-s", "-i", os.path.join(d, "patch.diff")], cwd=tmp,
+            p = subprocess.run(["patch", "-p1", "-s", "--no-backup-if-mismatch", "-i", os.path.join(d, "patch.diff")], cwd=tmp,
                                stdout=subprocess.PIPE, stderr=subprocess.STDOUT, universal_newlines=True)
             if p.returncode != 0:
                 print("%-12s patch does not apply any more: %s" % (os.path.basename(d), p.stdout.strip()[:120]))
